@@ -219,6 +219,18 @@ PROFILES = {
         c(Ops={"write", "rotate", "flush", "reopen"}, Keys={1, 2, 3}, MaxSeq=7, MaxTables=4),
         [{"mode": "fifo", "count": 3000}],
         blobs=[None, None, BLOBS[0], BLOBS[1], BLOBS[6]], val_alphas=[1], key_alphas=[0, 1]),
+    # C20 obsolete files reclaimed, nothing live deleted
+    "C20": tree_profile(
+        4, ["FILES", "DIRCLEAN", "DANGLE", "PTR", "OPFAIL"],
+        c(Ops=CORE1 | {"snap"}, MaxSeq=5, MaxSnaps=1),
+        [sim(30, 24, MaxSeq=16, MaxTables=5, MaxHist=20, MaxSnaps=2, MaxSealed=2, BigVals={2, 3},
+             Ops=CORE1 | {"snap", "clear", "droprange", "ingest"}, WriteBias=3),
+         drv(24, 160, dict(DRIVE_SNAP_W, clear=0.4, droprange=0.8, ingest=0.5, major=1.0))],
+        c(Ops=CORE1 | {"snap"}, MaxSeq=6, MaxSnaps=1),
+        [sim(800, 30, Keys={1, 2, 3}, MaxSeq=24, MaxTables=6, MaxHist=30, MaxSnaps=2, MaxSealed=2,
+             BigVals={2, 3}, Ops=CORE1 | {"snap", "clear", "droprange", "ingest"}, WriteBias=4),
+         drv(300, 400, dict(DRIVE_SNAP_W, clear=0.4, droprange=0.8, ingest=0.5, major=1.0))],
+        blobs=[None, None] + BLOBS, val_alphas=[1], regress=["findings/C20-clear-leaves-files.replay.json"]),
     # C18 sequence number high-water marks
     "C18": tree_profile(
         6, ["HI", "HIA"],
